@@ -121,8 +121,23 @@ inline uint32_t effective_L(const Config& c) {
   if (c.codec == CODEC_RSM) return c.m == 4 ? (c.k + 1) / 2 : c.k;
   return (c.k + 7) / 8;
 }
+// MAX_K / MAX_N of the LDPC-Staircase codec as the library itself advertises them (OF_CTRL_GET_MAX_K/N on a
+// fresh session), so that a tree built with another profile is judged against its own limits
+inline void ldpc_limits(uint32_t* mk, uint32_t* mn) {
+  static uint32_t k = 0, n = 0;
+  if (!k) {
+    void* ses = nullptr; k = 50000; n = 50000;
+    if (sh_create(&ses, CODEC_LDPC, ROLE_DEC) == 0 && ses) {
+      uint32_t a = 0, b = 0;
+      if (sh_get_ctrl_u32(ses, 1, &a) == 0 && sh_get_ctrl_u32(ses, 2, &b) == 0 && a && b) { k = a; n = b; }
+      sh_release(ses);
+    }
+  }
+  *mk = k; *mn = n;
+}
 // 1 valid, 0 invalid, -1 not specified by the properties (2D parity)
-inline int cfg_valid(const Config& c, uint32_t ldpc_max_k = 50000, uint32_t ldpc_max_n = 50000) {
+inline int cfg_valid(const Config& c) {
+  uint32_t ldpc_max_k, ldpc_max_n; ldpc_limits(&ldpc_max_k, &ldpc_max_n);
   uint64_t n = (uint64_t)c.k + c.r;
   uint32_t L = effective_L(c);
   switch (c.codec) {
@@ -142,7 +157,8 @@ inline int cfg_valid(const Config& c, uint32_t ldpc_max_k = 50000, uint32_t ldpc
 inline std::string cfg_invalid_reason(const Config& c) {
   uint64_t n = (uint64_t)c.k + c.r; uint32_t L = effective_L(c);
   std::string cn = c.codec == CODEC_RS8 ? "RS8" : c.codec == CODEC_RSM ? "RSM" : c.codec == CODEC_LDPC ? "LDPC" : "P2D";
-  uint32_t lim = c.codec == CODEC_LDPC ? 50000 : (c.codec == CODEC_RSM && c.m == 4) ? 15 : 255;
+  uint32_t lk, ln; ldpc_limits(&lk, &ln);
+  uint32_t lim = c.codec == CODEC_LDPC ? ln : (c.codec == CODEC_RSM && c.m == 4) ? 15 : 255;
   if (c.codec == CODEC_RSM && c.m != 4 && c.m != 8) return cn + "/m";
   if (c.k == 0) return cn + "/k=0";
   if (c.r == 0) return cn + "/r=0";
@@ -643,7 +659,7 @@ struct Sess {
     switch (sc.cfg.codec) {
       case CODEC_RS8: wk = wn = 255; break;
       case CODEC_RSM: wk = wn = (1u << sc.cfg.m) - 1; break;
-      case CODEC_LDPC: wk = wn = 50000; break;
+      case CODEC_LDPC: ldpc_limits(&wk, &wn); break;
       default: return;
     }
     if (s1 != ST_OK || s2 != ST_OK) cx.fail(O_PARAM, "limits_query_failed", "OF_CTRL_GET_MAX_K/N returned " + std::to_string(s1) + "/" + std::to_string(s2) + " on a configured session");
